@@ -620,6 +620,26 @@ func init() {
 		if len(samples) > 5 {
 			samples = samples[:5]
 		}
+		// CHF side: every unit-cost string through the real processor
+		var cjobs []Job
+		for i := 0; i < len(costs); i += 4 {
+			cjobs = append(cjobs, Job{Kind: "c08chf", Args: mustJSON(c08Args{Costs: costs[i:min(i+4, len(costs))]})})
+		}
+		chfChecked := 0
+		for i, r := range pool.RunAll(cjobs) {
+			if r.Crash != "" || r.Err != "" {
+				rep.EngineError("c08chf: " + r.Err + oneLine(r.Crash, 300))
+				exhaustive = false
+				continue
+			}
+			var o c08ChfOut
+			json.Unmarshal(r.Out, &o)
+			chfChecked += o.Checked
+			for _, f := range o.Finds {
+				rep.Finding(f.Rule, f.Detail, map[string]any{"job": json.RawMessage(cjobs[i].Args), "kind": "c08chf", "case": f.Detail})
+			}
+		}
+		rep.Cov["unit_costs_decoded_by_the_real_chf"] = chfChecked
 		per, sexecs, sex := c08Schedules(rep, pool)
 		if !sex {
 			exhaustive = false
